@@ -22,4 +22,4 @@ def main():
     return 0 if ok else 2
 
 
-HARNESS = {"harness": ["prim", "codec", "transport"]}
+HARNESS = {"harness": ["prim", "codec", "transport", "seq"]}
